@@ -32,6 +32,7 @@ U_F, U_D = Fraction(1, 2 ** 53), Fraction(1, 2 ** 52)
 WPS = [64, 100, 128, 192, 256, 512, 1024]
 
 SIG_ASAN_D = "asan:heap-buffer-overflow:mps_dhessenberg_shifted_determinant"
+SIG_M_N1 = "errbound:m:n=1:returned-bound-0-but-output-rounded-to-wp"
 SIG_VAL_D = "value:mps_dhessenberg_shifted_determinant:equals-as-coded-model(shift-not-subtracted-from-H[n-1,n-1])"
 
 
@@ -41,9 +42,16 @@ def d2frac(x):
 
 
 def dyadic_exp(x):
-    """smallest e such that x * 2^-e is an integer (x a finite double), 0 for x == 0"""
-    if x == 0.0:
+    """smallest e such that x * 2^-e is an integer (x a finite double or a dyadic Fraction), 0 for x == 0"""
+    if x == 0:
         return 0
+    if isinstance(x, Fraction):
+        num, den = x.numerator, x.denominator
+        if den & (den - 1):
+            raise ValueError("not a dyadic rational")
+        if den > 1:
+            return -(den.bit_length() - 1)
+        return (num & -num).bit_length() - 1
     m, e = math.frexp(x)
     mi = int(m * (1 << 53))
     e -= 53
@@ -198,6 +206,23 @@ def make_cases(ctx):
         H = gen_matrix(rng, n, 0, 0, 0, cplx=cplx, zero_sub=rng.choice([0.0, 0.05, 0.2]), small_int=3)
         add("int", n, H, gen_shift(rng, sk if cplx or sk != "complex" else "real", 0, 0, 0, small_int=3),
             wp_pick(1) if n <= 103 else [rng.choice(["64", "128", "64:128:192", "192:64:128"])])
+    # m variants only: entries that are genuinely wider than the output precision (exact dyadics with up to 256
+    # bits, held in 512-bit mpf inputs), so that the copy into the wp-bit working matrix and H[i,i] - shift round
+    def wide_num(bits):
+        if rng.random() < 0.05: return Fraction(0)
+        m = rng.getrandbits(bits) | (1 << (bits - 1)) | 1
+        return Fraction(m if rng.random() < 0.5 else -m) * pow2(rng.randint(-2, 3) - bits)
+    for n in [1, 1, 2, 3, 4, 6, 9, 12] * ctx.pick(1, 4):
+        bits = rng.choice([90, 160, 256])
+        H = [(Fraction(0), Fraction(0))] * (n * n)
+        for i in range(n):
+            for j in range(max(0, i - 1), n):
+                H[i * n + j] = (wide_num(bits), wide_num(bits))
+        sk = rng.choice(["zero", "wide", "double"])
+        s = (Fraction(0), Fraction(0)) if sk == "zero" else (wide_num(bits), wide_num(bits)) if sk == "wide" \
+            else (Fraction(rnd_double(rng, 53, -2, 3)), Fraction(rnd_double(rng, 53, -2, 3)))
+        wo = rng.choice([64, 128])
+        add("wide", n, H, s, ["512:512:%d" % wo, "512:512:%d" % rng.choice([64, 192, 256])])
     return cases
 
 
@@ -250,11 +275,31 @@ def run_model_parallel(ctx, cases, modes):
 
 
 # ------------------------------------------------------------------ implementation side
+def tok(v):
+    """a number on the harness line: bit pattern of a double, or x<hex>@<e> for a wide dyadic Fraction"""
+    if isinstance(v, Fraction):
+        e = dyadic_exp(v)
+        m = int(v / pow2(e))
+        return "x%s%x@%d" % ("-" if m < 0 else "", abs(m), e)
+    return vf.hexd(v)
+
+
+def untok(s):
+    if s.startswith("x"):
+        m, e = s[1:].split("@")
+        return Fraction(int(m, 16)) * pow2(int(e))
+    return vf.dhex(s)
+
+
+def is_wide(case):
+    return any(isinstance(v, Fraction) for z in [case["s"]] + list(case["H"]) for v in z)
+
+
 def harness_line(case):
     n, H, s = case["n"], case["H"], case["s"]
     wps = ",".join(str(w) for w in case["wps"]) if case["wps"] else "-"
-    return "%s %d %s %s %s %s" % (case["id"], n, wps, vf.hexd(s[0]), vf.hexd(s[1]),
-                                  " ".join(vf.hexd(a) + " " + vf.hexd(b) for a, b in H))
+    return "%s %d %s %s %s %s" % (case["id"], n, wps, tok(s[0]), tok(s[1]),
+                                  " ".join(tok(a) + " " + tok(b) for a, b in H))
 
 
 def run_harness(ctx, h, cases, variants, pad):
@@ -272,6 +317,9 @@ def run_harness(ctx, h, cases, variants, pad):
             res.setdefault(f[1], {}).setdefault("m", []).append(
                 (int(f[2].split(":")[-1]), mpf_digits_to_frac(f[4], int(f[5])), mpf_digits_to_frac(f[6], int(f[7])),
                  vf.dhex(f[8]), int(f[9]), int(f[3]), f[2]))
+        elif f[0] == "I":
+            res.setdefault(f[1], {}).setdefault("seen", []).append(
+                [mpf_digits_to_frac(f[k], int(f[k + 1])) for k in range(3, len(f), 2)])
         elif f[0] == "E":
             res.setdefault(f[1], {})["done"] = True
     return rc, res, err
@@ -369,8 +417,8 @@ class Judge:
 
     def replay_obj(self, case, variant, extra):
         o = {"case": {"id": case["id"], "cls": case["cls"], "n": case["n"], "wps": case["wps"],
-                      "s": [vf.hexd(case["s"][0]), vf.hexd(case["s"][1])],
-                      "H": [[vf.hexd(a), vf.hexd(b)] for a, b in case["H"]]},
+                      "s": [tok(case["s"][0]), tok(case["s"][1])],
+                      "H": [[tok(a), tok(b)] for a, b in case["H"]]},
              "variant": variant}
         o.update(extra)
         return o
@@ -419,7 +467,19 @@ class Judge:
             if ok and r > self.maxratio_cls.get(kc, 0.0): self.maxratio_cls[kc] = r
             if e2 > 0: self.nontrivial.add((case["id"], tag))
         if errbound is not None:
-            if e2 > errbound * errbound:
+            if e2 > errbound * errbound and n == 1 and errbound == 0:
+                # order 1: the function copies H[0,0] (- shift) into a wp-bit variable and returns error = verrors[0] = 0
+                ok = False
+                self.count("m:n=1-bound-0-output-rounded")
+                if SIG_M_N1 not in self.reported:
+                    self.reported.add(SIG_M_N1)
+                    ctx.violation(SIG_M_N1,
+                                  "mps_mhessenberg_shifted_determinant, order 1: H[0,0] - shift is rounded to the output precision "
+                                  "but the returned error bound is 0 (precisions matrix:shift:output %s)" % (spec or wp),
+                                  self.replay_obj(case, variant, {"computed": [str(val[0]), str(val[1])],
+                                                                  "exact": [str(case["det"][0]), str(case["det"][1])],
+                                                                  "errbound": "0", "wp": wp}))
+            elif e2 > errbound * errbound:
                 ok = False
                 rel = sqrt_ratio(e2 / (errbound * errbound)) if errbound > 0 else float("inf")
                 ctx.violation("errbound:m@%s:%s:n=%d:%s" % (spec or wp, case["cls"], n, case["id"]),
@@ -452,6 +512,10 @@ class Judge:
                 val = (Fraction(mr) * pow2(er), Fraction(mi) * pow2(ei))
                 self.check_value(case, "d", val, C_D, U_D)
         if "m" in variants:
+            want = [Fraction(v) for v in case["s"]] + [Fraction(v) for z in case["H"] for v in z]
+            for seen in r.get("seen", []):
+                if seen != want:
+                    raise vf.InfraError("case %s: the mpf inputs built by the harness are not the intended numbers" % case["id"])
             for (wp, vre, vim, em, ee, wpe, spec) in r.get("m", []):
                 eb = Fraction(em) * pow2(ee) if math.isfinite(em) else None
                 if eb is None or eb < 0:
@@ -470,8 +534,8 @@ class Judge:
                 elif got > DCTX.multiply(em_model, D("1.000001")):
                     self.errvec_larger += 1
         if len(self.samples) < 6 and case["n"] <= 3:
-            self.samples.append({"id": case["id"], "cls": case["cls"], "n": case["n"], "shift": list(case["s"]),
-                                 "H": [list(z) for z in case["H"]],
+            self.samples.append({"id": case["id"], "cls": case["cls"], "n": case["n"], "shift": [tok(v) for v in case["s"]],
+                                 "H": [[tok(v) for v in z] for z in case["H"]],
                                  "exact_det": [float(case["det"][0]), float(case["det"][1])],
                                  "f": list(r.get("f", ())), "d": list(r.get("d", ())),
                                  "m": [[m[6], float(m[1]), float(m[2]), m[3] * 2.0 ** max(-1000, m[4])] for m in r.get("m", [])]})
@@ -544,8 +608,8 @@ def evaluate(ctx, h, cases, judge):
 def case_from_replay(obj):
     c = obj["case"]
     return {"id": c.get("id", "r0"), "cls": c.get("cls", "replay"), "n": c["n"], "wps": c.get("wps", [64]),
-            "s": (vf.dhex(c["s"][0]), vf.dhex(c["s"][1])),
-            "H": [(vf.dhex(a), vf.dhex(b)) for a, b in c["H"]]}
+            "s": (untok(c["s"][0]), untok(c["s"][1])),
+            "H": [(untok(a), untok(b)) for a, b in c["H"]]}
 
 
 def run(ctx):
